@@ -101,7 +101,8 @@ def run(ctx):
     ctx.rule = ("differential: each line is one operation on the real nintendo.nex.kerberos and on the compiled Lean model (own MD5/HMAC/RC4): "
                 "key derivations (old/new) over passwords 0..64 bytes, pids incl. 0, 2^32-1, 2^64-1, 2^64, iteration counts (65000,1024),(1,1),(0,1),(3,7),(5,10),(0,0); "
                 "envelope encrypt/decrypt/check for keys 0..257 bytes and data 0..4 KiB; client/server tickets over key size 16/32 x pid 4/8 x version 0/1 with the "
-                "ticket randomness pinned (ciphertexts compared byte for byte); every single-bit flip and every truncation of sampled ciphertexts and wrong keys; "
+                "ticket randomness pinned (ciphertexts compared byte for byte); sequences of 5..9 mixed operations (server/client tickets, raw envelope, decrypt) under ONE key and one settings object "
+                "with keys alternating A,B,A,B: each call must draw exactly the randomness the model says and equal the model/reference for the randomness of that call; every single-bit flip and every truncation of sampled ciphertexts and wrong keys; "
                 "oracles on the real code: round trip of all fields, equality with independent Python references, rejection of every tampered ciphertext. "
                 "distinct non-trivial = distinct operation lines")
     ctx.assumptions.append("HMAC-MD5 unforgeability (a party without the key cannot produce an accepted tag): cryptographic assumption, not a Lean hypothesis; "
@@ -287,6 +288,87 @@ def run(ctx):
                 B.add("st.dec %d %d %d %s %s" % (ks2, ps2, ver2, G.hx(key), G.hx(ct)), wrap(sdec3), ("st.dec", "other-config"))
             elif not bad:
                 violation("server-ticket-encrypt:%d/%d/v%d" % (ks, ps, ver), "ServerTicket.encrypt failed on valid fields: " + real, {"key_size": ks, "pid_size": ps, "version": ver, "key": key.hex()})
+        # ------------------------------------------------------------ sequences under ONE key in one process
+        # State carried across calls (caches, reused cipher/ticket-key objects) only shows when several operations
+        # run under the same key: every call must use exactly the randomness it was handed, draw exactly as often
+        # as the model says (version-1 server ticket: one 16-byte draw; everything else: none), and equal the model.
+        def pid_bytes(ps, pid): return struct.pack("<Q", pid) if ps == 8 else struct.pack("<I", pid)
+        n_seq = 3 if quick else 30
+        seq_ops = 0
+        for (ks, ps, ver) in configs:
+            for si in range(n_seq):
+                S = G.make_settings(pid_size=ps, key_size=ks, ticket_version=ver)   # one settings object for the whole sequence
+                keys = [gen_key(rng), gen_key(rng)] if si % 3 else [rng.randbytes(rng.choice([16, 32]))]
+                prefixes = {}      # key -> list of (draw, prefix found in the ciphertext)
+                fixed = (G.gen_datetime_value(rng), G.gen_int(rng, 0, 1 << (32 if ps == 4 else 64)), rng.randbytes(ks))
+                for step in range(rng.randint(5, 9)):
+                    key = keys[step % len(keys)]        # A, B, A, B, ... : same key again after another key was used
+                    op = rng.choice(["st", "st", "st", "st-same", "ct", "env", "st-dec"]) if step > 1 else "st"
+                    seq_ops += 1
+                    ncalls = len(pinned.calls)
+                    if op in ("st", "st-same", "st-dec"):
+                        ts, pid, sk = fixed if op == "st-same" else (G.gen_datetime_value(rng), G.gen_int(rng, 0, 1 << (32 if ps == 4 else 64)), rng.randbytes(ks))
+                        st = kerberos.ServerTicket(); st.timestamp, st.source, st.session_key = common.DateTime(ts), pid, sk
+                        real = wrap(lambda: G.hx(st.encrypt(key, S)))
+                        drawn = pinned.calls[ncalls:]
+                        tk = drawn[0][1] if drawn else b""
+                        B.add("st.enc %d %d %d %s %s %d %d %s" % (ks, ps, ver, G.hx(key), G.hx(tk), ts, pid, G.hx(sk)), real, ("st.enc", "seq"))
+                        want_draws = [16] if ver == 1 else []
+                        ctx_info = {"key_size": ks, "pid_size": ps, "version": ver, "key": key.hex(), "step": step, "op": op,
+                                    "timestamp": ts, "source": pid, "session_key": sk.hex(), "draws_in_this_call": [(n, b.hex()) for n, b in drawn], "real": real[:400],
+                                    "how": "several ServerTicket.encrypt calls under the same key in one process, kerberos.secrets pinned to a recording source"}
+                        if [n for n, _ in drawn] != want_draws:
+                            violation("server-ticket-randomness-draws:v%d" % ver, "ServerTicket.encrypt (call #%d under this key sequence) drew randomness %r times, the construction draws %r"
+                                      % (step, [n for n, _ in drawn], want_draws), ctx_info)
+                        if real.startswith("ok "):
+                            ct = G.unhx(real[3:])
+                            plain = struct.pack("<Q", ts) + pid_bytes(ps, pid) + sk
+                            if ver == 1:
+                                e = ref_envelope(hashlib.md5(key + tk).digest(), plain)
+                                want = struct.pack("<I", 16) + tk + struct.pack("<I", len(e)) + e if drawn else None
+                                prefixes.setdefault(key, []).append((tk, ct[4:20]))
+                            else:
+                                want = ref_envelope(key, plain)
+                            if want is not None and ct != want:
+                                violation("server-ticket-reference-seq:%d/%d/v%d" % (ks, ps, ver), "server ticket #%d under one key differs from the reference construction for the randomness of that call" % step,
+                                          dict(ctx_info, reference=want.hex()))
+                            def sdec():
+                                d = kerberos.ServerTicket.decrypt(ct, key, S)
+                                return "%d %d %s" % (d.timestamp.value(), d.source, G.hx(d.session_key))
+                            rd = wrap(sdec)
+                            B.add("st.dec %d %d %d %s %s" % (ks, ps, ver, G.hx(key), G.hx(ct)), rd, ("st.dec", "seq"))
+                            if rd != "ok %d %d %s" % (ts, pid, G.hx(sk)):
+                                violation("server-ticket-roundtrip-seq:%d/%d/v%d" % (ks, ps, ver), "ServerTicket.decrypt(encrypt(t)) != t for ticket #%d under one key" % step, dict(ctx_info, got=rd))
+                    elif op == "ct":
+                        sk, pid, internal = rng.randbytes(ks), G.gen_int(rng, 0, 1 << (32 if ps == 4 else 64)), rng.randbytes(rng.randint(0, 24))
+                        t = kerberos.ClientTicket(); t.session_key, t.target, t.internal = sk, pid, internal
+                        real = wrap(lambda: G.hx(t.encrypt(key, S)))
+                        drawn = pinned.calls[ncalls:]
+                        B.add("ct.enc %d %d %s %s %d %s" % (ks, ps, G.hx(key), G.hx(sk), pid, G.hx(internal)), real, ("ct.enc", "seq"))
+                        want = "ok " + G.hx(ref_envelope(key, sk + pid_bytes(ps, pid) + struct.pack("<I", len(internal)) + internal))
+                        if drawn or real != want:
+                            violation("client-ticket-seq:%d/%d" % (ks, ps), "client ticket #%d under one key differs from the reference construction or drew randomness" % step,
+                                      {"key": key.hex(), "session_key": sk.hex(), "target": pid, "internal": internal.hex(), "real": real[:400], "reference": want[:400], "draws": len(drawn)})
+                    else:
+                        data = rng.randbytes(rng.randint(0, 40))
+                        k = kerberos.KerberosEncryption(key)
+                        real = wrap(lambda: G.hx(k.encrypt(data)))
+                        real2 = wrap(lambda: G.hx(k.encrypt(data)))      # the same object twice: no cipher state may survive a call
+                        drawn = pinned.calls[ncalls:]
+                        B.add("enc %s %s" % (G.hx(key), G.hx(data)), real, ("enc", "seq"))
+                        B.add("enc %s %s" % (G.hx(key), G.hx(data)), real2, ("enc", "seq-repeat"))
+                        want = "ok " + G.hx(ref_envelope(key, data))
+                        if drawn or real != want or real2 != want:
+                            violation("envelope-seq", "repeated KerberosEncryption.encrypt under one key differs from the reference construction or drew randomness",
+                                      {"key": key.hex(), "data": data.hex(), "first": real, "second": real2, "reference": want, "draws": len(drawn)})
+                # distinct draws must show as distinct ticket-key prefixes, each the draw of its own call
+                for key, lst in prefixes.items():
+                    draws = [d for d, _ in lst]
+                    found = [p for _, p in lst]
+                    if found != draws or (len(set(draws)) == len(draws) and len(set(found)) != len(found)):
+                        violation("server-ticket-key-reused:v%d" % ver, "tickets issued under one key do not carry the fresh 16 bytes drawn for each of them (ticket key reused or not taken from secrets.token_bytes)",
+                                  {"key_size": ks, "pid_size": ps, "version": ver, "key": key.hex(), "draws_per_ticket": [d.hex() for d in draws], "ticket_key_prefix_per_ticket": [p.hex() for p in found]})
+        ctx.extra["same_key_sequence_operations"] = seq_ops
         # every single-bit flip and truncation of sampled tickets
         for kind, (ks, ps, ver), key, ct in tick_src[: (24 if quick else 160)]:
             S = G.make_settings(pid_size=ps, key_size=ks, ticket_version=ver)
